@@ -109,7 +109,7 @@ def mkHook (kind : String) (a : Args) : Option H :=
   | "keyedTotal" => some (.keyedTotal a.m none)
   | "keyedNo" => some (.keyedNo a.m none)
   | "singleton" => some (.singleton { q := a.q })
-  | "passthrough" => some (.passthrough a.q none)
+  | "passthrough" => some (.passthrough a.q none none)
   | "keyedSingleton" => some (.keyedSingleton a.m none [])
   | "tlOrder" => some (.tlOrder a.q none)
   | "tlFold" => some (.tlFold a.q none)
@@ -144,7 +144,7 @@ def showCalls (log : List Call) : String :=
 
 def showState (h : H) : String :=
   let body := match h with
-    | .streamTotal q _ | .streamNo q _ | .passthrough q _ | .tlOrder q _ | .tlFold q _ => s!"q={showList q}"
+    | .streamTotal q _ | .streamNo q _ | .passthrough q _ _ | .tlOrder q _ | .tlFold q _ => s!"q={showList q}"
     | .singleton s => s!"q={showList s.q}"
     | .keyedTotal m _ | .keyedNo m _ | .keyedSingleton m _ _ | .tlKeyedOrder m _ | .tlPartial m _ => s!"m={showMap m}"
     | .tlMerge q1 q2 _ => s!"q={showList q1} q2={showList q2}"
@@ -158,7 +158,7 @@ def pushQ (h : H) (second : Bool) (items : List Nat) : Option H :=
   | .streamTotal q r, false => some (.streamTotal (q ++ items) r)
   | .streamNo q r, false => some (.streamNo (q ++ items) r)
   | .singleton s, false => some (.singleton { s with q := s.q ++ items })
-  | .passthrough q r, false => some (.passthrough (q ++ items) r)
+  | .passthrough q r l, false => some (.passthrough (q ++ items) r l)
   | .tlOrder q r, false => some (.tlOrder (q ++ items) r)
   | .tlFold q r, false => some (.tlFold (q ++ items) r)
   | .tlMerge q1 q2 r, false => some (.tlMerge (q1 ++ items) q2 r)
@@ -256,7 +256,7 @@ def step (st : St) (line : String) : St × String :=
           | none => "panic"
           | some (nt, msgs, h') =>
             let rest := match h' with
-              | .streamTotal q _ | .streamNo q _ | .passthrough q _ | .tlOrder q _ | .tlFold q _ => showList q
+              | .streamTotal q _ | .streamNo q _ | .passthrough q _ _ | .tlOrder q _ | .tlFold q _ => showList q
               | .singleton s => showList s.q
               | .keyedTotal m _ | .keyedNo m _ | .keyedSingleton m _ _ | .tlKeyedOrder m _ | .tlPartial m _ => showMap m
               | .tlMerge q1 q2 _ => s!"{showList q1}+{showList q2}"
